@@ -121,6 +121,10 @@ func c04Values(types []*pt.Type) []c04Value {
 		c04Value{"empty:[{}]", nil, pt.A(pt.M())}, c04Value{"empty:{k:[]}", nil, pt.M("k", pt.A())}, c04Value{"empty:{k:{}}", nil, pt.M("k", pt.M())},
 		c04Value{"mixed:[1 []]", nil, pt.A(pt.A(pt.N(1)), pt.A())}, c04Value{"mixed:[[1] [\"a\"]]", nil, pt.A(pt.A(pt.N(1)), pt.A(pt.S("a")))},
 		c04Value{"mixed:[1 2 {}]", nil, pt.A(pt.N(1), pt.N(2), pt.M())},
+		c04Value{"mixed:[[] [1]]", nil, pt.A(pt.A(), pt.A(pt.N(1)))}, c04Value{"mixed:[{} {a:1}]", nil, pt.A(pt.M(), pt.M("a", pt.N(1)))},
+		c04Value{"mixed:[{a:1} {}]", nil, pt.A(pt.M("a", pt.N(1)), pt.M())}, c04Value{"mixed:{p:{} q:{a:1}}", nil, pt.M("p", pt.M(), "q", pt.M("a", pt.N(1)))},
+		c04Value{"mixed:{p:[1] q:[]}", nil, pt.M("p", pt.A(pt.N(1)), "q", pt.A())}, c04Value{"mixed:[[] [[1]]]", nil, pt.A(pt.A(), pt.A(pt.A(pt.N(1))))},
+		c04Value{"mixed:[[{}] [{a:1}]]", nil, pt.A(pt.A(pt.M()), pt.A(pt.M("a", pt.N(1))))},
 		c04Value{"litvar-basic:[n]", []pt.Stmt{n}, pt.A(pt.V("n"))}, c04Value{"litvar-basic:{k:n}", []pt.Stmt{n}, pt.M("k", pt.V("n"))},
 		c04Value{"litvar-basic:[[n]]", []pt.Stmt{n}, pt.A(pt.A(pt.V("n")))},
 		c04Value{"litvar-comp:[a]", []pt.Stmt{a}, pt.A(pt.V("a"))}, c04Value{"litvar-comp:{k:a}", []pt.Stmt{a}, pt.M("k", pt.V("a"))},
